@@ -124,11 +124,11 @@ def ensure_streams(app: appboot.App):
                             seed=132, track_id=2, sample_durations_in="trun")
     mp4synth.register(app, "synbig", "Synthetic large segments", {"synbig_v1": v, "synbig_a1": a}, timing_from="synbig_v1")
     # sy$n: a stream whose directory contains a `$` (legal, and special inside DASH URL templates, where it is
-    # written `$$`; not special inside a BaseURL or any other plain URL)
+    # written `$$`; not special inside a BaseURL or any other plain URL) and whose media file names contain a hyphen
     v = mp4synth.make_track("video", 240, [960, 960, 720], samples_per_segment=4, seed=141, track_id=1)
     a = mp4synth.make_track("audio", 48000, [192512, 191488, 144384], samples_per_segment=[188, 187, 141], seed=142,
                             track_id=2, sample_durations_in="trun")
-    mp4synth.register(app, "sy$n", "Synthetic, dollar in the directory", {"sydn_v1": v, "sydn_a1": a}, timing_from="sydn_v1")
+    mp4synth.register(app, "sy$n", "Synthetic, dollar in the directory", {"sydn-v1": v, "sydn-a1": a}, timing_from="sydn-v1")
     # synmut: a stream whose stored media CHANGES during a run (C06 deletes synmut_v2 between two passes over the
     # same manifest URLs: a static manifest describes the media stored NOW)
     v1 = mp4synth.make_track("video", 240, [960, 960, 960], samples_per_segment=4, seed=151, track_id=1)
@@ -143,6 +143,13 @@ def ensure_streams(app: appboot.App):
     a = mp4synth.make_track("audio", 48000, [96000, 96000, 96000, 95988], samples_per_segment=94, seed=162, track_id=2,
                             sample_durations_in="trun")
     mp4synth.register(app, "synfrac", "Synthetic 7.99975 s", {"synfrac_v1": v, "synfrac_a1": a}, timing_from="synfrac_a1")
+    # synodd: an AUDIO timing reference whose duration is not a multiple of its segment count (287002 ticks in 3
+    # segments: segment_duration x count != duration), fragments addressed through an explicit tfhd base_data_offset
+    # (video: position of the moof; audio: absolute file offsets), as older packagers write them
+    v = mp4synth.make_track("video", 240, [480, 480, 480], samples_per_segment=4, seed=171, track_id=1, base="explicit")
+    a = mp4synth.make_track("audio", 48000, [96000, 95000, 96002], samples_per_segment=[94, 93, 94], seed=172, track_id=2,
+                            sample_durations_in="trun", base="absolute")
+    mp4synth.register(app, "synodd", "Synthetic odd audio reference", {"synodd_v1": v, "synodd_a1": a}, timing_from="synodd_a1")
     # synday: a timing reference longer than a day (timescale 1, ten segments of 9600 s = 26 h 40 min) – durations
     # whose days component is not zero (static manifests only)
     v = mp4synth.make_track("video", 1, [9600] * 10, samples_per_segment=4, seed=111, track_id=1)
@@ -187,6 +194,7 @@ class Track:
     payload_sha: list        # per media segment: sha1 of the mdat payload in the stored file
     seg_pos: list            # (pos, size) of every segment incl. init at index 0
     path: str
+    ref_dur_file: tuple | None = None      # (duration, timescale) of the timing-reference FILE
 
     def H1(self):
         return sum(self.durs[:-1]) < self.R
@@ -231,6 +239,11 @@ def tracks(app: appboot.App, stream: str) -> dict:
                 content_type=rep.content_type, encrypted=rep.encrypted,
                 has_tfdt=stored_tfdt[0] is not None, stored_tfdt=stored_tfdt, payload_sha=sha,
                 seg_pos=[(seg.pos, seg.size) for seg in rep.segments], path=str(path))
+        # the duration of the timing-reference media itself (sum of the durations of the file the stored
+        # reference names) – the stored StreamTimingReference row is a snapshot of it
+        named = out.get(getattr(ref, "media_name", None))
+        for t_ in out.values():
+            t_.ref_dur_file = (sum(named.durs), named.ts) if named is not None else None
     _TRACKS[stream] = out
     return out
 
